@@ -280,7 +280,8 @@ def run(scn, log, st):
         judge(text, top, si, what, scn, blackboxes=bb, b=b)
         texts += 1
         st.probe('text_elaborated')
-        log.add(si, c, len(text))
+        from .c19 import canonical
+        log.add(si, c, h64(canonical(text)))
     if texts and st.faults:
         st.nontrivial = True
 
